@@ -365,6 +365,11 @@ func load(cmdline, environ, envprefix []string, props *properties.Properties) (c
 		return nil, fmt.Errorf("proxy.noroutestatus must be between 100 and 999")
 	}
 
+	// the glob cache panics on the first lookup if it has no room for at least one pattern
+	if cfg.GlobCacheSize <= 0 {
+		return nil, fmt.Errorf("glob.cache.size must be greater than zero")
+	}
+
 	if cfg.Registry.Consul.AllowStale && cfg.Registry.Consul.RequireConsistent {
 		return nil, fmt.Errorf("registry.consul.allowStale and registry.consul.requireConsistent cannot both be true")
 	}
